@@ -17,8 +17,21 @@ def _operand(draw, shape, vkind, force_kind=None):
     """The U of mttkrp: dict(kind=list|ktensor, rank, weights, factors[k] = rows of the (I_k, R) matrix)."""
     kind = force_kind or draw(st.sampled_from(["list", "ktensor", "ktensor"]))
     R = draw(st.integers(1, 3))
+    vkind = cm.other_vkind(draw, vkind)  # mostly the data's value kind, sometimes the other one (mixed operands)
     factors = [draw(st.lists(st.lists(gen.values(vkind), min_size=R, max_size=R), min_size=s, max_size=s))
                for s in shape]
+    # matrices with a zero row (a mode index that contributes nothing)
+    if draw(st.integers(0, 5)) == 0:
+        k = draw(st.integers(0, len(shape) - 1))
+        factors[k][draw(st.integers(0, shape[k] - 1))] = [0.0] * R
+    # a plain list may hold integer matrices (a ktensor insists on float64)
+    fdt = [None] * len(shape)
+    ustate = None
+    if kind == "list":
+        fdt = [cm.operand_dtype(draw, vkind, True) for _ in shape]
+    else:
+        # the Kruskal operand in a derived state (after normalize(weight_factor=k) its factors are C-ordered ...)
+        ustate = draw(cm.ST.kruskal_state(list(shape), R))
     if kind == "ktensor":
         wk = draw(st.sampled_from(["unit", "nonunit", "nonunit", "nonunit"]))
         if wk == "unit":
@@ -29,14 +42,27 @@ def _operand(draw, shape, vkind, force_kind=None):
                 w[0] = 2.0
     else:
         w = [1.0] * R
-    return dict(kind=kind, rank=R, weights=w, factors=factors)
+    return dict(kind=kind, rank=R, weights=w, factors=factors, fdtypes=fdt, vkind=vkind, state=ustate)
 
 
 def build_operand(u, shape):
+    """(operand handed to pyttb, (factor matrices, weights) that define the product).  MTTKRP is a function of the
+    operand's *parameters* (not only of the array a Kruskal operand denotes), so for a Kruskal operand in a derived
+    state they are read from the attributes of the object that was built."""
     fm = [np.array(f, dtype=float).reshape(s, u["rank"]) for f, s in zip(u["factors"], shape)]
+    w = np.array(u["weights"], dtype=float)
     if u["kind"] == "ktensor":
-        return ttb.ktensor([m.copy() for m in fm], np.array(u["weights"], dtype=float)), fm
-    return [m.copy() for m in fm], fm
+        K = cm.ST.build_kruskal(w, fm, u.get("state"))
+        return K, ([np.array(f, dtype=float) for f in K.factor_matrices], np.array(K.weights, dtype=float))
+    return [cm.cast(m, d) for m, d in zip(fm, u.get("fdtypes") or [None] * len(fm))], (fm, w)
+
+
+def operand_exact(u):
+    return u.get("vkind", "int") == "int" and cm.ST.kruskal_state_exact(u.get("state"))
+
+
+def _exact(h, u):
+    return cm.intvalued(h) and operand_exact(u)
 
 
 def _strategy(kind):
@@ -49,10 +75,9 @@ def _strategy(kind):
     return s
 
 
-def _expect(h, u, n):
+def _expect(h, params, n):
     A, Aabs = cm.den_case(h), cm.den_case(h, absolute=True)
-    fm = [np.array(f, dtype=float).reshape(s, u["rank"]) for f, s in zip(u["factors"], h["shape"])]
-    w = np.array(u["weights"], dtype=float)
+    fm, w = params
     expect = cm.ref_mttkrp(A, fm, n, w)
     bound = cm.ref_mttkrp(Aabs, [np.abs(m) for m in fm], n, np.abs(w))
     return expect, bound
@@ -63,7 +88,11 @@ def _labels(ctx, h, u, n):
     pos = "n-first" if n == 0 else ("n-last" if n == N - 1 else "n-middle")
     wl = "U-list" if u["kind"] == "list" else ("U-ktensor-unit" if all(x == 1.0 for x in u["weights"]) else
                                                 "U-ktensor-weighted")
-    ctx.label(*cm.holder_labels(h), *gen.shape_classes(h["shape"]), pos, wl, f"R{u['rank']}")
+    ctx.label(*cm.holder_labels(h), *gen.shape_classes(h["shape"]), pos, wl, f"R{u['rank']}",
+              *sorted({"U-dtype-" + (d or "float64") for d in (u.get("fdtypes") or [None])}),
+              "U-state-" + (u.get("state") or {}).get("how", "ctor"),
+              "U-has-zero-row" if any(not any(row) for f in u["factors"] for row in f) else "U-no-zero-row",
+              "values-mixed-kinds" if u.get("vkind", h["vkind"]) != h["vkind"] else "values-same-kind")
 
 
 def mttkrp_body(ctx, case):
@@ -72,15 +101,16 @@ def mttkrp_body(ctx, case):
     shape = h["shape"]
     N = len(shape)
     X = cm.build(h)
-    U, _ = build_operand(u, shape)
-    expect, bound = _expect(h, u, n)
+    U, params = build_operand(u, shape)
+    expect, bound = _expect(h, params, n)
     _labels(ctx, h, u, n)
+    ctx.label(*cm.object_labels(X))
     ctx.nt = len(set(shape)) >= 2 and N >= 3 and u["rank"] >= 2 and bool(np.any(expect != 0))
     with ctx.sut(f"{kind}.mttkrp"):
         V = X.mttkrp(U, np.int64(n) if case.get("n_numpy") else int(n))
     ctx.require(isinstance(V, np.ndarray), "mttkrp-returns-ndarray", type(V).__name__)
     nterms = cm.terms(h) * ref.prod(shape) * (N + 2)
-    cm.compare(ctx, V, expect, bound, nterms, cm.intvalued(h), "mttkrp-value", f"n={n} U={u['kind']}")
+    cm.compare(ctx, V, expect, bound, nterms, _exact(h, u), "mttkrp-value", f"n={n} U={u['kind']}")
 
 
 for _k, (_q, _t) in {"tensor": (1000, 10000), "sptensor": (800, 6000), "ktensor": (800, 8000),
@@ -97,10 +127,13 @@ def _enum_mttkrp(tier):
         for hk in ("tensor", "sptensor", "sptensor-thin", "sptensor-one", "sptensor-empty", "ktensor", "ttensor-dense",
                    "ttensor-sparse", "sumtensor"):
             h = cm.fixed_holder(hk, sh, salt=N + 2)
+            i = 0
             for n in range(N):
                 for ukind, w in (("list", [1.0, 1.0]), ("ktensor", [1.0, 1.0]), ("ktensor", [2.0, -3.0])):
-                    u = dict(kind=ukind, rank=2, weights=w, factors=[cm.fixed_matrix(s, 2, k + 1) for k, s in enumerate(sh)])
-                    yield dict(X=h, n=n, U=u)
+                    u = dict(kind=ukind, rank=2, weights=w, factors=[cm.fixed_matrix(s, 2, k + 1) for k, s in enumerate(sh)],
+                             fdtypes=[(None, "int64", "int32")[(k + n) % 3] for k in range(N)])
+                    yield dict(X=cm.fixed_state(h, i), n=n, U=u)
+                    i += 1
 
 
 @cell("C02/mttkrp/enumerated", enum=_enum_mttkrp, shards=(4, 8))
@@ -139,9 +172,9 @@ def mttkrps_tensor(ctx, case):
     shape = h["shape"]
     N = len(shape)
     X = cm.build(h)
-    U, _ = build_operand(u, shape)
+    U, params = build_operand(u, shape)
     _labels(ctx, h, u, 0)
-    ctx.label(_split_label(shape))
+    ctx.label(_split_label(shape), *cm.object_labels(X))
     ctx.nt = len(set(shape)) >= 2 and N >= 3 and u["rank"] >= 2
     with ctx.sut("tensor.mttkrps"):
         Vs = X.mttkrps(U)
@@ -149,9 +182,9 @@ def mttkrps_tensor(ctx, case):
                 f"{type(Vs).__name__}")
     nterms = ref.prod(shape) * (N + 2)
     for n in range(N):
-        expect, bound = _expect(h, u, n)
+        expect, bound = _expect(h, params, n)
         ctx.require(isinstance(Vs[n], np.ndarray), "mttkrps-entry-ndarray", type(Vs[n]).__name__)
-        cm.compare(ctx, Vs[n], expect, bound, nterms, cm.intvalued(h), "mttkrps-value", f"n={n} U={u['kind']}")
+        cm.compare(ctx, Vs[n], expect, bound, nterms, _exact(h, u), "mttkrps-value", f"n={n} U={u['kind']}")
 
 
 def _enum_mttkrps(tier):
@@ -160,9 +193,11 @@ def _enum_mttkrps(tier):
         shapes += [(4, 3, 2), (3, 1, 2, 2), (1, 1, 2), (2, 2, 2, 2, 3), (6, 2, 2, 2), (2, 2, 2, 6)]
     for sh in shapes:
         h = cm.fixed_holder("tensor", sh, salt=len(sh))
-        for ukind, w in (("list", [1.0, 1.0]), ("ktensor", [1.0, 1.0]), ("ktensor", [2.0, -3.0])):
-            yield dict(X=h, U=dict(kind=ukind, rank=2, weights=w,
-                                   factors=[cm.fixed_matrix(s, 2, k + 1) for k, s in enumerate(sh)]))
+        for i, (ukind, w) in enumerate((("list", [1.0, 1.0]), ("ktensor", [1.0, 1.0]), ("ktensor", [2.0, -3.0]))):
+            for j in range(3):
+                yield dict(X=cm.fixed_state(h, 1 + i + 3 * j),
+                           U=dict(kind=ukind, rank=2, weights=w, fdtypes=[(None, "int64")[(k + j) % 2] for k in range(len(sh))],
+                                  factors=[cm.fixed_matrix(s, 2, k + 1) for k, s in enumerate(sh)]))
 
 
 @cell("C02/mttkrps/enumerated", enum=_enum_mttkrps)
